@@ -429,6 +429,54 @@ class MemoizationOperator(Operator):
         return repr(self._child)  # Not sure if we should indicate our presence considering that we're a no-op
 
 
+class _OperandReference(int):
+    """The index of an operand in the list produced by :func:`flatten`."""
+
+
+def flatten(root: Operator) -> typing.List[typing.Tuple[typing.Type[Operator], typing.Dict[str, typing.Any]]]:
+    """
+    Operators are nested as deeply as the expression they represent, so anything that processes them by recursion
+    (e.g., pickling) is limited by the call stack. This function lists the operators reachable from the root, operands
+    before the operators that use them (the root is the last one), as pairs of the class and the attributes,
+    where the references to operands are replaced with their indices in the list. The inverse is :func:`unflatten`.
+    """
+    index = {}  # type: typing.Dict[int, int]
+    out = []  # type: typing.List[typing.Tuple[typing.Type[Operator], typing.Dict[str, typing.Any]]]
+    pending = [(root, False)]  # type: typing.List[typing.Tuple[Operator, bool]]
+    while pending:
+        op, operands_done = pending.pop()
+        if id(op) in index:
+            continue
+        if not operands_done:
+            pending.append((op, True))
+            pending.extend((x, False) for x in op.children)
+            continue
+        attributes = dict(vars(op))
+        for key, value in attributes.items():
+            if isinstance(value, Operator):
+                attributes[key] = _OperandReference(index[id(value)])
+            elif isinstance(value, (list, tuple)) and any(isinstance(x, Operator) for x in value):
+                attributes[key] = type(value)(_OperandReference(index[id(x)]) for x in value)
+        index[id(op)] = len(out)
+        out.append((type(op), attributes))
+    return out
+
+
+def unflatten(flat: typing.Sequence[typing.Tuple[typing.Type[Operator], typing.Dict[str, typing.Any]]]) -> Operator:
+    """The inverse of :func:`flatten`."""
+    ops = []  # type: typing.List[Operator]
+    for cls, attributes in flat:
+        op = cls.__new__(cls)
+        for key, value in attributes.items():
+            if isinstance(value, _OperandReference):
+                value = ops[value]
+            elif isinstance(value, (list, tuple)) and any(isinstance(x, _OperandReference) for x in value):
+                value = type(value)(ops[x] for x in value)
+            setattr(op, key, value)
+        ops.append(op)
+    return ops[-1]
+
+
 def least_common_multiple(a: int, b: int) -> int:
     """
     Wrapper for :func:`math.lcm` to keep call sites readable.
